@@ -48,6 +48,69 @@ CHECKS = {
   note="Trusted: the rule readings in harness/internal/reg/strat_*.go (Appendix B; 'crosses above' is read as a level test where the code keeps no previous value; MacdStrategy's undocumented zero-side filter is a code reading, i.e. a regression guard).",
   technique="differential runtime monitoring against the documented rule evaluated on the strategy's own indicator (one-switch deviation models for known findings)",
  ),
+ "C07": dict(
+  category="exploration",
+  text="The real combinators wrap scripted stub strategies that replay chosen action words, so the full space of sub-recommendations is reachable: every tuple of words up to small lengths is enumerated (k=1..3 sub-strategies) and long random words with up to 6 sub-strategies are sampled; outputs are compared with slice models of the specified vote / split / swap / no-loss / stop-loss functions and, independently of the models, with two trace safety monitors stated in the property (no Sell at a close not above the preceding Buy; Sell at the first close at or below buy x (1 - pct)). MACD-RSI is compared with the agreement rule over its own real sub-strategies. Exhaustive within the enumerated scope, sampled beyond.",
+  design_ref="DESIGN.md §3 C07",
+  note="Trusted: the models in harness/internal/props/c07.go (No-Loss sells only strictly above the purchase close, as the property states; the type's doc comment says 'at or above'). Unequal word lengths are C03's business.",
+  technique="exhaustive small-scope model-based monitoring with scripted stubs + online trace safety monitors",
+ ),
+ "C08": dict(
+  category="exploration",
+  text="Outcome is executed on channels for every action word up to length 7/8 over six value series and for random long words with unequal stream lengths; each execution is compared with an independent cash/shares simulator and passed through the invariants the property lists (one entry per pair, never below -100%, zero before the first Buy, bit-identical after removing redundant actions, alternation and round-trip of Normalize/Denormalize, running transaction count, buy-and-hold = v_i/v_0 - 1 through ComputeWithOutcome on independent OHLC fields and a reused instance).",
+  design_ref="DESIGN.md §3 C08",
+  note="Trusted: the simulator in harness/internal/props/c08.go; positive finite values only.",
+  technique="exhaustive small-scope differential monitoring against an independent simulator + invariant monitors",
+ ),
+ "C09": dict(
+  category="exploration",
+  text="For every indicator and strategy one instance is used for a sequence of calls on different inputs and then for 6-8 simultaneous calls at GOMAXPROCS=16; all results must equal those of fresh instances bit for bit, and a reflective deep fingerprint of the instance (unexported fields included) must not change across any call. The same concurrent batches are repeated under the Go race detector (halt_on_error=0; report blocks counted and de-duplicated). Worker-pool races are covered by C12/C13.",
+  design_ref="DESIGN.md §3 C09, §1 E4",
+  note="Trusted: the race detector only sees executed interleavings (the batch is repeated 3/10 times); concurrent use of one helper.Csv value is not claimed (the library never shares one).",
+  technique="Go race detector over concurrent workloads + state-immutability fingerprint + reuse/concurrency equivalence oracle",
+ ),
+ "C10": dict(
+  category="exploration",
+  text="Random operation histories are applied in lock-step to a sequential map model and to the in-memory, file-system and SQL repositories (the SQL one through database/sql over an in-memory driver written for this purpose); every return value and error-ness is compared, and every Append is followed at once by a read of the same asset (visibility). Values cover all finite float64 incl. extremes; dates as the property restricts them.",
+  design_ref="DESIGN.md §3 C10",
+  note="Trusted: harness/internal/fakesql as the 'conforming driver' (rows in insertion order, statements take effect before returning); for a name appended only with empty batches either an empty result or an error is accepted (SQL cannot tell it from an unknown name).",
+  technique="lock-step model-based runtime monitoring of operation histories over three implementations",
+ ),
+ "C11": dict(
+  category="exploration",
+  text="Row structs covering every supported kind with values from the extremes of each kind go through random write/append/append-or-write histories on one file (always including a longer file overwritten by a shorter one, with and without header) and are read back and compared with a list model after every step; header permutation / extra columns are checked with files written directly by encoding/csv, also through one reused codec value; JSON streams are round-tripped for floats, ints, strings, times and a struct.",
+  design_ref="DESIGN.md §3 C11",
+  note="Trusted: encoding/csv and encoding/json. The two-byte sequence CR LF inside strings is outside the domain (encoding/csv normalises it on read). One known finding: a lone empty string field.",
+  technique="round-trip oracle + file-content list model over operation histories",
+ ),
+ "C12": dict(
+  category="fault_enumeration",
+  text="Sync is run between real repositories through a wrapper that records every call/return with a logical clock, injects source-read and target-append failures and yields between operations. For scenarios with up to 4 assets all subsets of failing reads x all subsets of failing appends are enumerated; larger random scenarios vary target prefixes, asset lists and worker counts. Decided per run: exact final state, idempotence, error reporting, isolation of failures, equality across worker counts, linearizability of the recorded target history against the map model (porcupine, partitioned by asset), and absence of data races (race build).",
+  design_ref="DESIGN.md §3 C12",
+  note="Trusted: porcupine v1.3.0; Delay=0 (a non-zero delay is a sleep between assets); duplicate names in the asset list are outside the workload.",
+  technique="fault injection at repository boundaries + final-state model + porcupine linearizability check of recorded histories + race detector",
+ ),
+ "C13": dict(
+  category="exploration",
+  text="Backtest is run with a recording Report whose online trace checker decides the notification protocol; exactly-once delivery per (asset, strategy); content equal to a direct evaluation inside the look-back window; equality of result sets across 1/2/3/8/16 workers; the bundled DataReport and HTMLReport are checked against the same direct evaluation (HTML pages parsed: presence, %.2f outcomes, non-increasing order, best entry maximal); the multi-worker runs are repeated under the race detector; a 'concurrent map writes' crash is attributed by the parent.",
+  design_ref="DESIGN.md §3 C13",
+  note="Trusted: snapshot dates are generated relative to the current day and kept >= 2 days from the window edge, so time.Now() inside Backtest never decides a verdict.",
+  technique="online protocol trace checker + exactly-once/content oracle + race detector over worker pools",
+ ),
+ "C14": dict(
+  category="exploration",
+  text="For every strategy and several series lengths the report's date and column channels are drained through reflection and counted (one value per date in every column), the Close/annotation/Outcome cells are recomputed per row, a rendered report is parsed (one row per date, cells equal to the drained values, nothing left unconsumed; rendering runs in the timer-free child so a wedge is reported by the runtime), and the dependence front of every indicator column must sit exactly on the row of the changed date.",
+  design_ref="DESIGN.md §3 C14",
+  note="Trusted: reflection on the unexported `values` field of the report columns (no source hook); series longer than the warm-up only, as the property quantifies.",
+  technique="runtime counting of column values vs date rows + per-row recomputation + parsed rendering + dependence-front probe",
+ ),
+ "C19": dict(
+  category="fault_enumeration",
+  text="Every truncation offset of small valid documents, stacked grammar-aware corruptions and byte mutations are fed to the CSV reader (5 row shapes, with/without header, via reader and via file), the JSON stream reader and the Tiingo repository (13 status codes x body kinds through a fake RoundTripper, no network). Decided per document: no panic, the stream closes (runtime deadlock detector), delivered rows equal the records of the well-formed prefix computed by an independent reference, no goroutine left behind, response bodies closed, non-200 / missing files surface as errors.",
+  design_ref="DESIGN.md §3 C19",
+  note="Trusted: encoding/csv / encoding/json tokenisation (the reference uses the same standard-library tokenisers but its own field parsing). Closing the response body stands for 'no goroutine left behind' of the real HTTP transport. Unreadable-by-permission files cannot be produced as root.",
+  technique="fault enumeration (all truncation offsets + corruption grammar) with crash/deadlock attribution, well-formed-prefix reference and goroutine census",
+ ),
  "C15": dict(
   category="exploration",
   text="Invariant monitors (ranges, band ordering, containment, non-negativity) run on every value emitted by the 20 indicators the property names, over 11 hostile-but-valid OHLCV classes, many period configurations and lengths up to 400; zero-denominator positions are exempt and counted. No reference implementation decides the verdict (the registry reference is only used to locate zero denominators).",
